@@ -248,10 +248,10 @@ type g16ProofObs struct {
 	proof      *g16.Proof
 	r, s       *big.Int
 	W          []*big.Int
-	Ar, Bs, Kr *big.Int   // expected scalars
-	D          []*big.Int // expected commitment scalars
+	Ar, Bs, Kr *big.Int     // expected scalars
+	D          []*big.Int   // expected commitment scalars
 	CV         [][]*big.Int // privately committed values per commitment, in basis order
-	Ar0        *big.Int   // unblinded alpha + A·w
+	Ar0        *big.Int     // unblinded alpha + A·w
 	errs       []string
 }
 
@@ -470,6 +470,36 @@ func (c *cm3b) Define(api frontend.API) error {
 	return nil
 }
 
+// four commitments with crossing dependencies: the third commits to the second, the fourth to the first (a later
+// commitment depends on an older commitment than an earlier one did)
+type cm4x struct {
+	X, Y, Z, W frontend.Variable
+	P1         frontend.Variable `gnark:",public"`
+}
+
+func (c *cm4x) Define(api frontend.API) error {
+	api.AssertIsEqual(api.Mul(c.X, c.X), c.P1)
+	cm := api.(frontend.Committer)
+	c0, err := cm.Commit(c.X)
+	if err != nil {
+		return err
+	}
+	c1, err := cm.Commit(c.Y)
+	if err != nil {
+		return err
+	}
+	c2, err := cm.Commit(c1, c.Z)
+	if err != nil {
+		return err
+	}
+	c3, err := cm.Commit(c0, c.W)
+	if err != nil {
+		return err
+	}
+	api.AssertIsDifferent(api.Add(c2, c3), c.W)
+	return nil
+}
+
 // committed expressions whose lowest wire is the constant or a public input although they contain a secret
 type cmShift struct {
 	X, W frontend.Variable
@@ -547,6 +577,10 @@ func g16Specs() []g16Spec {
 		{"commit3-second-only", func() frontend.Circuit { return &cm3b{} }, func(k int) frontend.Circuit {
 			x := int64(2 + k)
 			return &cm3b{X: x, W: 5 + int64(k), V: 11 + int64(k), P1: x * x}
+		}},
+		{"commit4-crossing", func() frontend.Circuit { return &cm4x{} }, func(k int) frontend.Circuit {
+			x := int64(2 + k)
+			return &cm4x{X: x, Y: 5 + int64(k), Z: 11 + int64(k), W: 13 + int64(k), P1: x * x}
 		}},
 		{"commit-shifted", func() frontend.Circuit { return &cmShift{} }, func(k int) frontend.Circuit {
 			x := int64(2 + k)
